@@ -465,7 +465,7 @@ class Scenario:
         elif name.startswith("rq:"):
             # rq:<header application id>:<realm key>[:missing][:T]  (an ACR whatever the application id)
             parts = name.split(":")
-            realm = {"own": env.NODE_REALM, "r2": "realm2.example", "foreign": "nowhere.example"}[parts[2]]
+            realm = {"own": env.NODE_REALM, "r2": "realm2.example", "r3": "realm3.example", "foreign": "nowhere.example"}[parts[2]]
             flags = R | P | (T if "T" in parts[3:] else 0)
             # "alias": the required AVP is missing, but an AVP with the same code under a foreign vendor is present
             extra = [rc.enc_avp(485, b"\x00\x00\x00\x07", 0x80, 99_999)] if "alias" in parts[3:] else []
